@@ -56,8 +56,13 @@ impl TraitFnAnalyzer<'_> {
         trait_fn.attrs = input_fn
             .fn_attrs
             .iter()
-            .filter(|attr| attr.path().is_ident("cfg"))
-            .cloned()
+            .filter_map(|attr| match &attr.meta {
+                meta if meta.path().is_ident("cfg") => Some(attr.clone()),
+                meta => Some(syn::Attribute {
+                    meta: conditional_cfg(meta)?,
+                    ..attr.clone()
+                }),
+            })
             .collect();
         Ok(trait_fn)
     }
@@ -113,6 +118,34 @@ impl TraitFnAnalyzer<'_> {
             default_body: None,
             fn_generic_arguments,
         })
+    }
+}
+
+/// What a `cfg_attr(predicate, ..)` says about `cfg`: `cfg_attr(predicate, cfg(..))`
+fn conditional_cfg(meta: &syn::Meta) -> Option<syn::Meta> {
+    if !meta.path().is_ident("cfg_attr") {
+        return None;
+    }
+    let mut arguments = meta
+        .require_list()
+        .ok()?
+        .parse_args_with(syn::punctuated::Punctuated::<syn::Meta, syn::token::Comma>::parse_terminated)
+        .ok()?
+        .into_iter();
+    let predicate = arguments.next()?;
+    let cfgs: Vec<_> = arguments
+        .filter_map(|meta| {
+            if meta.path().is_ident("cfg") {
+                Some(meta)
+            } else {
+                conditional_cfg(&meta)
+            }
+        })
+        .collect();
+    if cfgs.is_empty() {
+        None
+    } else {
+        Some(syn::parse_quote! { cfg_attr(#predicate, #(#cfgs),*) })
     }
 }
 
